@@ -18,4 +18,6 @@ VARIANTS = [
     V('benign-extent-from-lo', F, ("extents = np.abs(bounds_2[0:3].reshape((3))-mid)", "extents = np.abs(mid - bounds_1[0:3].reshape((3)))"), 'silent'),
     V('benign-lt-form', F, ("if abs(midpoint_ab[0]) > extents[0] + abs_obstruct[0]:", "if extents[0] + abs_obstruct[0] < abs(midpoint_ab[0]):"), 'silent'),
     V('benign-half-diff', F, ("L = (a - midpoint_ab)", "L = (a - b) / 2"), 'silent'),
+    V('unsound-sphere-prerejection', F, ("abs_obstruct = np.abs(L)\n", "abs_obstruct = np.abs(L)\n            if midpoint_ab @ midpoint_ab > extents @ extents + L @ L:\n                continue\n"), 'fire', 'not a separating-axis inequality'),
+    V('benign-sound-sphere-prerejection', F, ("abs_obstruct = np.abs(L)\n", "abs_obstruct = np.abs(L)\n            if np.linalg.norm(midpoint_ab) > np.linalg.norm(extents) + np.linalg.norm(L):\n                continue\n"), 'silent'),
 ]
